@@ -45,10 +45,13 @@ type layer struct {
 	build func() (fs hackpadfs.FS, parts []hackpadfs.FS, done func())
 }
 
-var allNSOps = []string{"mkdir", "mkdirall", "openclose", "open-ro", "writefile", "remove", "removeall", "rename-old", "rename-new", "rename-new-missing-old", "chmod", "chtimes", "stat", "readdir", "readfile", "sub"}
+var allNSOps = []string{"mkdir", "mkdirall", "openclose", "open-ro", "writefile", "remove", "removeall", "rename-old", "rename-new", "rename-new-missing-old", "chmod", "chtimes", "stat", "readdir", "readfile", "sub",
+	// the same entry points with argument values for which an implementation may take a shortcut before it validates the name
+	"chtimes-zero", "chmod-0", "mkdir-0", "mkdirall-0", "writefile-empty", "rename-same", "open-trunc", "open-excl", "open-append"}
 
 // the generic Sub view provides no Rename of its own (hackpadfs.Rename on it is ErrNotImplemented)
-var subOps = []string{"mkdir", "mkdirall", "openclose", "open-ro", "writefile", "remove", "removeall", "chmod", "chtimes", "stat", "readdir", "readfile", "sub"}
+var subOps = []string{"mkdir", "mkdirall", "openclose", "open-ro", "writefile", "remove", "removeall", "chmod", "chtimes", "stat", "readdir", "readfile", "sub",
+	"chtimes-zero", "chmod-0", "mkdir-0", "mkdirall-0", "writefile-empty", "open-trunc", "open-excl", "open-append"}
 var readOps = []string{"open-ro", "stat", "readdir", "readfile"}
 
 // primOnly exposes Open, OpenFile, Mkdir, Remove and Stat of the base and nothing else
@@ -234,6 +237,22 @@ func c04Op(kind, name string) Op {
 		return Op{Kind: kind, P: name, Perm: 0o600}
 	case "chtimes":
 		return Op{Kind: kind, P: name, T: 77}
+	case "chmod-0":
+		return Op{Kind: "chmod", P: name, Perm: 0}
+	case "mkdir-0":
+		return Op{Kind: "mkdir", P: name, Perm: 0}
+	case "mkdirall-0":
+		return Op{Kind: "mkdirall", P: name, Perm: 0}
+	case "writefile-empty":
+		return Op{Kind: "writefile", P: name, Data: nil, Perm: 0o644}
+	case "rename-same":
+		return Op{Kind: "rename", P: name, Q: name}
+	case "open-trunc":
+		return Op{Kind: "openclose", P: name, Flag: fTRUNC, Perm: 0}
+	case "open-excl":
+		return Op{Kind: "openclose", P: name, Flag: fWRONLY | fCREATE | fEXCL, Perm: 0o600}
+	case "open-append":
+		return Op{Kind: "openclose", P: name, Flag: fWRONLY | fAPPEND, Perm: 0}
 	}
 	return Op{Kind: kind, P: name}
 }
@@ -268,6 +287,13 @@ func runC04(r *Rng, n int, replay string) {
 					if err != nil {
 						a = Obs{Kind: "err", Err: canonErr(err)}
 					}
+				} else if kind == "chtimes-zero" {
+					// the zero time.Time: "leave unchanged" to some implementations
+					err := hackpadfs.Chtimes(fs, name, time.Time{}, time.Time{})
+					a = Obs{Kind: "ok"}
+					if err != nil {
+						a = Obs{Kind: "err", Err: canonErr(err)}
+					}
 				} else {
 					w := &World{FS: fs}
 					a = w.Apply(c04Op(kind, name))
@@ -292,13 +318,13 @@ func runC04(r *Rng, n int, replay string) {
 				} else {
 					c.Cells = []string{l.name + "/" + kind + "/valid"}
 					if a.failed() && a.Err != nil && a.Err.Cls == "EINVAL" && !strings.Contains(name, "\x00") &&
-						!(kind == "rename-old" || kind == "rename-new" || kind == "rename-new-missing-old" || kind == "remove" || kind == "removeall") {
+						!(kind == "rename-old" || kind == "rename-new" || kind == "rename-new-missing-old" || kind == "rename-same" || kind == "remove" || kind == "removeall") {
 						// (removing or renaming the root or a mount point is refused with ErrInvalid for another reason)
 						c.fail(c.Text[0]+": a valid name was refused as invalid", kind+":"+l.name+":refused-valid")
 					}
 				}
 				// model correspondence: the in-memory FS only
-				if li == 0 && kind != "sub" {
+				if li == 0 && kind != "sub" && kind != "chtimes-zero" {
 					prep := []Op{{Kind: "mkdir", P: "d", Perm: 0o755}, {Kind: "writefile", P: "f", Data: []byte{1, 2, 3}, Perm: 0o644}, {Kind: "writefile", P: "d/f", Data: []byte{4, 5}, Perm: 0o600}}
 					mfs := newMem()
 					w := &World{FS: mfs}
